@@ -63,6 +63,7 @@ func main() {
 			boundOverride[kv[:i]] = v
 		}
 	}
+	var concreteCases []map[string]interface{}
 	if *cex != "" {
 		b, err := os.ReadFile(*cex)
 		if err != nil {
@@ -72,7 +73,11 @@ func main() {
 		if err := json.Unmarshal(b, &m); err != nil {
 			fatal(err)
 		}
-		if in, ok := m["inputs"].(map[string]interface{}); ok {
+		if cs, ok := m["cases"].([]interface{}); ok {
+			for _, c := range cs {
+				concreteCases = append(concreteCases, c.(map[string]interface{}))
+			}
+		} else if in, ok := m["inputs"].(map[string]interface{}); ok {
 			concreteInputs = in
 		} else {
 			concreteInputs = m
@@ -197,6 +202,29 @@ func main() {
 		return
 	}
 	output := &Output{Tier: tier, LoadS: loadS, Solver: *solverCmd, Dropped: dropped}
+	if concreteCases != nil {
+		// translator validation: each case is one concrete execution of its harness
+		byName := map[string]*ssa.Function{}
+		for _, h := range hs {
+			byName[h.Name()] = h
+		}
+		for _, c := range concreteCases {
+			h := byName[c["harness"].(string)]
+			if h == nil {
+				continue
+			}
+			concreteInputs = c["inputs"].(map[string]interface{})
+			base := &State{heap: map[int]*Obj{}, decided: map[int]bool{}, eqc: map[int]*Term{}, globals: map[*ssa.Global]int{}, inited: map[*ssa.Package]bool{}, counters: map[string]int{}, onceDone: map[string]bool{}, ghost: map[string]Value{}, unwind: 100000}
+			r := e.RunHarness(h, base)
+			r.finalize()
+			output.Harnesses = append(output.Harnesses, r)
+		}
+		if *out != "" {
+			b, _ := json.MarshalIndent(output, "", " ")
+			writeFile(*out, string(b))
+		}
+		return
+	}
 	for _, h := range hs {
 		base := &State{heap: map[int]*Obj{}, decided: map[int]bool{}, eqc: map[int]*Term{}, globals: map[*ssa.Global]int{}, inited: map[*ssa.Package]bool{}, counters: map[string]int{}, onceDone: map[string]bool{}, ghost: map[string]Value{}, unwind: e.cfg.Unwind}
 		r := e.RunHarness(h, base)
